@@ -16,12 +16,12 @@ from pv.mon import contracts
 ID = 'C12'
 LEVEL = 'exploration'
 TECHNIQUE = ('history monitor: interleavings of load / forced load / enforce / edit over several real Enforcers sharing '
-             'caller-owned defaults; per-step differential against a fresh Enforcer and deep attribute snapshots of the shared objects')
+             'caller-owned defaults; per-step differential against a fresh Enforcer and deep attribute snapshots of the shared objects; two enforcers loading at the same time under a deterministic line-level thread scheduler (sys.monitoring)')
 RULE = ('histories over {load, forced load, enforce, edit file} x enforcer index; H = every interleaving up to the length '
         'bound for two enforcers (one with enforce_new_defaults off, one on); R = random interleavings of 5-30 steps over '
         '1-3 enforcers with random option values and file contents, with or without a policy directory (edited too) and with or without a main file (which may be deleted); shared defaults with and without deprecated '
         'predecessors (renamed, same-name with changed default, plain). Non-trivial = the history has at least two loads '
-        'of one enforcer or involves two enforcers; distinct = distinct (configuration, history).')
+        'of one enforcer or involves two enforcers; distinct = distinct (configuration, history). Stratum `overlap`: two new enforcers registered with the SAME default objects (own files, opposite enforce_new_defaults) perform their first load at the same time, each on its own thread (second one runs at sampled line boundaries of the first, and both in flight): each decides as after a single load, the shared objects are unchanged.')
 ASSUMPTIONS = ['sharing of sub-objects between registered copies is not alteration: the statement is behavioural, so only '
                'observable attributes (names, check strings, printed checks, tree shape, deprecated fields, scope types) are snapshotted',
                'logical clock on every edit (file and directory)']
@@ -29,7 +29,7 @@ LEVEL_TEXT = ('All interleavings up to length 3 (thorough: 4) for two enforcers 
               'three; comparisons after every step. Interleavings are unbounded, so bounded-exhaustive plus sampling is the level.')
 LEVEL_NOTE = 'trusted: a fresh Enforcer with re-constructed defaults as the oracle of "loaded once"; the attribute snapshot function'
 PLAN = {'quick': dict(shards=8, wall=70), 'thorough': dict(shards=16, wall=500)}
-MIN = {'evaluations': 300, 'steps_compared': 1500, 'snapshots_compared': 1500, 'forced_reloads': 200, 'merged_or_checks_seen': 100}
+MIN = {'overlapping_evaluations': 200, 'evaluations': 300, 'steps_compared': 1500, 'snapshots_compared': 1500, 'forced_reloads': 200, 'merged_or_checks_seen': 100}
 ANCHORS = ['oslo_policy.policy:Enforcer.register_default', 'oslo_policy.policy:Enforcer._handle_deprecated_rule',
            'oslo_policy.policy:Enforcer.load_rules', 'oslo_policy.policy:Enforcer.enforce']
 REQUIRED_ANCHORS = ['oslo_policy.policy:Enforcer.load_rules']
@@ -176,8 +176,61 @@ def run_history(ctx, case):
         ctx.violation('contract-' + name, case, {'contract': name, 'observed': info})
 
 
+OVERLAPS = {'quick': 3, 'thorough': 60}
+
+
+def check_overlap(ctx, case):
+    """Two enforcers built from the SAME default objects (own files, own options) load and decide at the same time, each on
+    its own thread: each ends up with the policy of a single load, and the shared objects stay as they were."""
+    from oslo_policy import policy
+    from pv.mon import overlap
+    shared = make_defaults(policy, case['with_dep'], case.get('dshape', 0))
+    s0 = snap(shared)
+    trees, want = [], []
+    try:
+        for cfg_ in case['enforcers']:
+            tree = files.Tree(dirs=())
+            if cfg_['initial'] is not None:
+                tree.write('policy.yaml', CONTENTS[cfg_['initial']], 'json')
+            trees.append(tree)
+            fresh = policy.Enforcer(tree.conf(policy_dirs=[], enforce_new_defaults=cfg_['flag']))
+            fresh.register_defaults(make_defaults(policy, case['with_dep'], case.get('dshape', 0)))
+            want.append(decisions(fresh))
+
+        def mk(i):
+            def make():
+                # a NEW enforcer per execution, registered with the shared objects: its first load happens inside the call
+                enf = policy.Enforcer(trees[i].conf(policy_dirs=[], enforce_new_defaults=case['enforcers'][i]['flag']))
+                enf.register_defaults(shared)
+
+                def run_():
+                    try:
+                        enf.load_rules(force_reload=bool(case.get('force')))
+                        return decisions(enf)
+                    except Exception as e:
+                        return 'EXC:' + type(e).__name__
+                return run_
+            return make
+        ctx.case(['overlap', case['with_dep'], case.get('dshape', 0), case['enforcers']], True, 'overlap')
+        detail = {'enforcers': case['enforcers'], 'with_deprecated_predecessors': case['with_dep'], 'default_shapes': case.get('dshape', 0)}
+        ok = overlap.pair(ctx, mk(0), mk(1), case, detail, ctx.sub_rnd('Ob', case['rseed']), limit=60, key='enforcers-influence-each-other')
+        if ok:
+            for i in (0, 1):
+                got = mk(i)()()
+                if got != want[i]:
+                    diff = {k: [got[k], want[i][k]] for k in want[i] if not isinstance(got, dict) or got.get(k) != want[i][k]} if isinstance(got, dict) else got
+                    ctx.violation('repeated-load-changes-decisions', case, dict(detail, enforcer=i, differs=dict(list(diff.items())[:6]) if isinstance(diff, dict) else diff))
+                    return
+        if snap(shared) != s0:
+            ctx.violation('caller-owned-default-mutated', case, dict(detail, after='two enforcers loading at the same time'))
+    finally:
+        for t in trees:
+            t.cleanup()
+
+
 def run(ctx):
     contracts.load_rules_keeps_defaults()
+    ctx.reserve(0.8)
     b = BOUNDS[ctx.tier]
     alphabet = [(op, who) for op in OPS for who in (0, 1)]
     idx = 0
@@ -216,10 +269,30 @@ def run(ctx):
         if i % 20 == 0:
             ctx.sample(dict(case, history=case['history'][:8] + ['...']), 'R')
     ctx.stratum('R', exhaustive=False)
+    ctx.release()
+    # two enforcers loading at the same time, last (the line-level scheduler slows everything that runs after it is installed)
+    from pv.mon import sched
+    ctx.stratum('overlap', exhaustive=False)
+    try:
+        for i in range(OVERLAPS[ctx.tier]):
+            if ctx.expired():
+                break
+            r = ctx.sub_rnd('O', ctx.tier, ctx.shard, i)
+            check_overlap(ctx, dict(overlap=True, with_dep=r.random() < 0.85, dshape=r.randrange(24), force=r.random() < 0.3,
+                                    enforcers=[dict(flag=f, initial=r.choice([None, 0, 1, 2, 3, 4, 5])) for f in r.sample([True, False], 2)],
+                                    rseed='%s.%d.%d' % (ctx.tier, ctx.shard, i)))
+    finally:
+        sched.uninstall()
     for k, v in contracts.EVALS.items():
         ctx.count('contract_evals.' + k, v)
 
 
 def replay(ctx, case):
     contracts.load_rules_keeps_defaults()
+    if case.get('overlap'):
+        from pv.mon import sched
+        try:
+            return check_overlap(ctx, case)
+        finally:
+            sched.uninstall()
     run_history(ctx, case)
